@@ -23,14 +23,12 @@ PRELUDE = ('p() { echo "p:$*"; }\nn() { echo "n:$*"; return 1; }\n'
            'pc() { cat >/dev/null; echo "p:$*"; }\nnc() { cat > /dev/null; echo "n:$*"; return 1; }\nx=b; y=2\n')
 CALL = '{ f A B; echo "rc=$?"; wait; }'
 
-# which failure kinds a defect class can explain (None = any)
+# which failure kinds a defect class can explain (None = any).  Repaired and no longer excused (a
+# failure there is a VIOLATION again): compound_redirect_adjacent, procsub_word_double_parens,
+# for_without_in_prints_empty_list, pipe_then_amp_redirect.
 CLAUSES = [
     ("heredoc_reprint", "heredoc", None),
-    ("compound_redirect_adjacent", "compound_redirect_adjacent", None),
-    ("procsub_word_double_parens", "procsub_word", None),
-    ("for_without_in_prints_empty_list", "for_without_in", {"ast", "import_ast", "bash_print", "brush_behaviour", "bash_behaviour", "export_brush", "export_bash"}),
     ("multiline_word_indented", "multiline_word_indented", {"ast", "print2", "import_ast", "import_print", "bash_print", "brush_behaviour", "bash_behaviour", "export_brush", "export_bash"}),
-    ("pipe_then_amp_redirect", "pipe_amp_redirect", None),
     ("export_body_not_brace_group", "body_not_brace", {"export_bash"}),
 ]
 DEFECT_FEATURES = {c[1] for c in CLAUSES}
